@@ -13,6 +13,7 @@ import Golib.Packs.Hand
 import Golib.Packs.Container
 import Golib.Packs.Irregular
 import Golib.Layout.Prefix
+import Golib.Packs.Caps
 import Golib.Gen.PackLayouts
 
 namespace C03Gen
@@ -137,6 +138,9 @@ theorem agree_LogSinkPack : agrees Packs.Hand.LogSinkPack.w LogSinkPack.r = true
 theorem agree_ParamPack : agrees Packs.Hand.ParamPack.w Packs.Hand.ParamPack.r = true := by decide
 theorem agree_ExtensionPack : agrees Packs.Hand.ExtensionPack.w Packs.Hand.ExtensionPack.r = true := by decide
 theorem agree_EventPack_wire : agrees Packs.Hand.EventPack.w Packs.Hand.EventPack.r = true := by decide
+
+/-! ### bounded tables: the limits the constructors set (SetMax), as recorded in Golib/Packs/Caps.lean -/
+theorem caps_as_recorded : caps = Packs.expectedCaps := by decide
 
 /-! ### the registry -/
 
